@@ -43,6 +43,11 @@ theorem wfNode_step (G : GLang) (c : GCfg) (w : Wf) (root : Node) (exprs : List 
             rw [← h.1]
             exact .trans s1 (addExpr_step G c root _ e g1 none false g2 node hx)
 
+/-- the store is not looked at when the initial graph is made -/
+theorem initGraph_store (G : GLang) (σ : Store) (c : GCfg) : initGraph { G with store := σ } c = initGraph G c := rfl
+
+/-- the graph of a workflow is built over `{ G with store := σf }` (the store after the final `fixExpr`): the
+`from`/`depends` part never looks at types, so the steps are the same -/
 theorem addWorkflow_step (P : PLang) (G : GLang) (ops : List OperatorDecl) (c : GCfg) (passthrough : Bool)
     (w : Wf) (g : GState) (out : Nat) (m : List (Nat × Nat))
     (h : addWorkflow P G ops c passthrough w = .ok (g, out, m)) :
@@ -72,8 +77,9 @@ theorem addWorkflow_step (P : PLang) (G : GLang) (ops : List OperatorDecl) (c : 
                 · rename_i gc kc hc
                   simp only [Except.ok.injEq] at hr
                   rw [← hr]
-                  exact .trans (wfNode_step G c w _ _ _ _ _ _ _ hc) (.add _ _ (by simp [NotFD]))) _ _ h3
-              refine .trans (wfNode_step G c w _ _ _ _ _ _ _ h1) (.trans ?_ (.trans s3 (.trans (.add _ _ (by simp [NotFD]))
+                  exact .trans (wfNode_step _ c w _ _ _ _ _ _ _ hc) (.add _ _ (by simp [NotFD]))) _ _ h3
+              rw [initGraph_store] at h1
+              refine .trans (wfNode_step _ c w _ _ _ _ _ _ _ h1) (.trans ?_ (.trans s3 (.trans (.add _ _ (by simp [NotFD]))
                 (.ty (.iteAdd _ _ _ (by simp [NotFD]))))))
               refine GStep.foldl _ _ (fun ga p => ?_) g1
               split
